@@ -165,6 +165,144 @@ Proof.
 Qed.
 
 (* ------------------------------------------------------------------ *)
+(* C06, attributes: what a stage sets is what every later stage sees *)
+Definition is_see (e : str) : bool := has_prefix e (L "see:").
+Definition vlog (s : rstate) : list str := filter is_see (st_log s).
+
+Lemma sees_app l1 l2 a : sees_of (l1 ++ l2) a = sees_of l1 a ++ sees_of l2 (attrs_after l1 a).
+Proof.
+  revert a. induction l1 as [|x l1 IH]; intros a; cbn; [reflexivity|].
+  destruct x; cbn; rewrite ?IH; reflexivity.
+Qed.
+Lemma attrs_app l1 l2 a : attrs_after (l1 ++ l2) a = attrs_after l2 (attrs_after l1 a).
+Proof. revert a. induction l1 as [|x l1 IH]; intros a; cbn; [reflexivity|]. destruct x; cbn; apply IH. Qed.
+
+Lemma vlog_write_header s n : vlog (write_header s n) = vlog s /\ st_attrs (write_header s n) = st_attrs s.
+Proof. unfold write_header. destruct (st_status s); auto. Qed.
+Lemma vlog_write_body s b : vlog (write_body s b) = vlog s /\ st_attrs (write_body s b) = st_attrs s.
+Proof.
+  unfold write_body. destruct (st_comp s) as [[[c ch] [|]]|]; cbn; unfold write_header; destruct (st_status s); auto.
+Qed.
+
+Lemma run_actions_sees l : forall s,
+  panic_free l = true ->
+  exists s', run_actions l s = Done s' /\ vlog s' = vlog s ++ sees_of l (st_attrs s) /\
+             st_attrs s' = attrs_after l (st_attrs s).
+Proof.
+  unfold panic_free. induction l as [|a l IH]; intros s H; cbn [run_actions sees_of attrs_after].
+  - exists s. now rewrite app_nil_r.
+  - cbn [existsb] in H. apply negb_true_iff, orb_false_iff in H as [Ha Hl].
+    assert (Hl' : negb (existsb action_is_panic l) = true) by now rewrite Hl.
+    destruct a as [k v|n|b|k v|k|m]; cbn [run_action bind] in *; try discriminate.
+    + destruct (IH (upd_hdr s (hadd (st_hdr s) k v)) Hl') as (s' & E & L1 & A1). exists s'. auto.
+    + destruct (IH (write_header s n) Hl') as (s' & E & L1 & A1). destruct (vlog_write_header s n) as [V A].
+      exists s'. rewrite V, A in *. auto.
+    + destruct (IH (write_body s b) Hl') as (s' & E & L1 & A1). destruct (vlog_write_body s b) as [V A].
+      exists s'. rewrite V, A in *. auto.
+    + destruct (IH (upd_attrs s (pset k v (st_attrs s))) Hl') as (s' & E & L1 & A1). exists s'. auto.
+    + destruct (IH (upd_log s (L "see:" ++ k ++ L "=" ++ attr_get k (st_attrs s))) Hl') as (s' & E & L1 & A1).
+      exists s'. split; [exact E|]. split; [|exact A1]. rewrite L1. unfold vlog. cbn [upd_log st_log st_attrs].
+      rewrite filter_app. cbn [filter]. replace (is_see (L "see:" ++ k ++ L "=" ++ attr_get k (st_attrs s))) with true by reflexivity.
+      now rewrite <- app_assoc.
+Qed.
+
+Lemma vlog_upd_log_other s e : is_see e = false -> vlog (upd_log s e) = vlog s.
+Proof. intros H. unfold vlog. cbn [upd_log st_log]. rewrite filter_app. cbn [filter]. rewrite H. apply app_nil_r. Qed.
+
+(* the chain, for filters that pass on the wrapper they were given: one attribute map along the flattened
+   sequence pre f1 .. pre fk, target, post fk .. post f1 *)
+Theorem run_chain_sees fs : forall target tgt s,
+  forallb fscript_panic_free fs = true -> existsb f_fresh fs = false ->
+  (forall s0, exists s1, target s0 = Done s1 /\ vlog s1 = vlog s0 ++ sees_of tgt (st_attrs s0) /\
+                         st_attrs s1 = attrs_after tgt (st_attrs s0)) ->
+  exists s', run_chain fs target s = Done s' /\
+             vlog s' = vlog s ++ sees_of (flat_actions fs tgt) (st_attrs s) /\
+             st_attrs s' = attrs_after (flat_actions fs tgt) (st_attrs s).
+Proof.
+  induction fs as [|f rest IH]; intros target tgt s Hpf Hfr Ht; cbn [run_chain flat_actions].
+  - apply Ht.
+  - cbn [forallb existsb] in Hpf, Hfr. apply andb_true_iff in Hpf as [Hf Hrest]. apply orb_false_iff in Hfr as [Hff Hfrest].
+    unfold fscript_panic_free, fscript_has_panic in Hf. apply negb_true_iff, orb_false_iff in Hf as [Hpre Hpost].
+    assert (Ppre : panic_free (f_pre f) = true) by (unfold panic_free; now rewrite Hpre).
+    assert (Ppost : panic_free (f_post f) = true) by (unfold panic_free; now rewrite Hpost).
+    destruct (run_actions_sees (f_pre f) (upd_log s (L "pre:" ++ f_id f)) Ppre) as (s1 & E1 & L1 & A1).
+    rewrite E1. cbn [bind]. rewrite vlog_upd_log_other in L1 by reflexivity. cbn [upd_log st_attrs] in L1, A1.
+    rewrite Hff. destruct (f_pass f).
+    + destruct (IH target tgt s1 Hrest Hfrest Ht) as (s2 & E2 & L2 & A2). rewrite E2. cbn [bind].
+      destruct (run_actions_sees (f_post f) s2 Ppost) as (s3 & E3 & L3 & A3). rewrite E3. cbn [bind].
+      eexists. split; [reflexivity|]. rewrite vlog_upd_log_other by reflexivity. cbn [upd_log st_attrs].
+      rewrite L3, L2, L1, A3, A2, A1, !sees_app, !attrs_app, <- !app_assoc. auto.
+    + destruct (run_actions_sees (f_post f) s1 Ppost) as (s3 & E3 & L3 & A3). rewrite E3. cbn [bind].
+      eexists. split; [reflexivity|]. rewrite vlog_upd_log_other by reflexivity. cbn [upd_log st_attrs].
+      rewrite L3, L1, A3, A1, !sees_app, !attrs_app. cbn [app sees_of attrs_after]. rewrite <- !app_assoc. auto.
+Qed.
+
+Lemma vlog_close_comp s : vlog (close_comp s) = vlog s.
+Proof.
+  unfold close_comp. destruct (st_comp s) as [[[c ch] [|]]|]; try reflexivity.
+  unfold write_header. destruct (st_status s); reflexivity.
+Qed.
+
+Lemma cfg_no_fresh_parts cfg w r :
+  cfg_has_fresh cfg = false ->
+  existsb f_fresh (d_cfilters cfg ++ sfilters_of cfg w ++ rfilters_of cfg r) = false /\ existsb f_fresh (d_cfilters cfg) = false.
+Proof.
+  unfold cfg_has_fresh. intros H. apply orb_false_iff in H as [H Hr]. apply orb_false_iff in H as [Hc Hs].
+  split; [|exact Hc]. rewrite !existsb_app, Hc. cbn.
+  unfold sfilters_of, rfilters_of.
+  destruct (assoc (s_root w) (d_sfilters cfg)) as [l|] eqn:E1; destruct (zassoc (r_id r) (d_rfilters cfg)) as [l2|] eqn:E2; cbn;
+    rewrite ?(assoc_existsb_false (existsb f_fresh) _ _ _ Hs E1), ?(zassoc_existsb_false (existsb f_fresh) _ _ _ Hr E2); reflexivity.
+Qed.
+
+(* a whole request: the values every stage sees are those of ONE attribute map threaded through
+   container filters, service filters, route filters, the route function, and back *)
+Theorem dispatch_sees cfg req already s :
+  cfg_has_panic cfg = false -> cfg_has_fresh cfg = false ->
+  route_request O (d_table cfg) req <> RPanic ->
+  (match route_request O (d_table cfg) req with RError _ => st_attrs s = [] | _ => True end) ->
+  exists s', dispatch O cfg req already s = Done s' /\ vlog s' = vlog s ++ expected_sees O cfg req.
+Proof.
+  intros Hpf Hnf Hnp Hat. unfold dispatch, dispatch_body, expected_sees, route_request in *.
+  assert (Hcp : cond_panic_hit O cfg req = false).
+  { unfold cfg_has_panic in Hpf. apply orb_false_iff in Hpf as [Hpf0 _]. apply orb_false_iff in Hpf0 as [_ Hc]. unfold cond_panic_hit.
+    destruct (d_condpanic cfg); [|discriminate]. cbn [existsb andb].
+    destruct (str_eqb (hget req H_CondPanic) (L "1")); [|reflexivity]. cbn [andb].
+    induction (path_candidates O (d_table cfg) req) as [|x l IH]; [reflexivity|exact IH]. }
+  rewrite Hcp.
+  destruct (select_route O (d_table cfg) req) as [[w r]|e].
+  - destruct (cfg_panic_free_parts cfg w r Hpf) as (Hc & Hs & Hr & Hh).
+    destruct (cfg_no_fresh_parts cfg w r Hnf) as [Hfr _].
+    destruct (extract_parameters O (d_table cfg) w r (rq_path req)) as [ps|]; [|now contradiction Hnp].
+    match goal with |- context [run_chain ?fs ?tg ?st] =>
+      destruct (run_chain_sees fs tg (handler_of cfg r) st) as (s1 & E1 & L1 & _) end.
+    + now apply forallb_app3.
+    + exact Hfr.
+    + intros s0.
+      destruct (run_actions_sees (handler_of cfg r)
+                  (upd_log (upd_log s0 (L "H:" ++ itoa (r_id r)))
+                           (L "saw:" ++ attr_get K_sel (st_attrs s0) ++ L " " ++ attr_get K_params (st_attrs s0))) Hh)
+        as (s1 & E1 & L1 & A1).
+      exists s1. split; [exact E1|]. rewrite !vlog_upd_log_other in L1 by reflexivity. cbn [upd_log st_attrs] in L1, A1. auto.
+    + rewrite E1. eexists. split; [reflexivity|]. rewrite vlog_close_comp, L1. cbn [upd_attrs st_attrs].
+      destruct already; [reflexivity|].
+      destruct (match r_enc r with Some b => b | None => d_encoding cfg end); [|reflexivity].
+      destruct (wants_compressed req s); reflexivity.
+  - destruct (cfg_panic_free_parts cfg {| s_root := []; s_routes := [] |}
+                {| r_id := 0; r_method := []; r_rel := []; r_consumes := []; r_produces := [];
+                   r_conds := []; r_noct := []; r_enc := None |} Hpf) as (Hc & _).
+    destruct (cfg_no_fresh_parts cfg {| s_root := []; s_routes := [] |}
+                {| r_id := 0; r_method := []; r_rel := []; r_consumes := []; r_produces := [];
+                   r_conds := []; r_noct := []; r_enc := None |} Hnf) as [_ Hfr].
+    destruct (run_chain_sees (d_cfilters cfg) (write_service_error e) [] s Hc Hfr) as (s1 & E1 & L1 & _).
+    + intros s0. unfold write_service_error. destruct e as [|a| |]; cbn; eexists; (split; [reflexivity|]);
+        rewrite app_nil_r; repeat match goal with
+        | |- context [write_body ?x ?b] => destruct (vlog_write_body x b) as [-> ->]
+        | |- context [write_header ?x ?n] => destruct (vlog_write_header x n) as [-> ->]
+        end; auto.
+    + rewrite E1. eexists. split; [reflexivity|]. rewrite vlog_close_comp, L1, Hat. reflexivity.
+Qed.
+
+(* ------------------------------------------------------------------ *)
 (* C07: the compressor discipline of a whole request, for both entry points and
    every outcome (normal, routing error, panic with and without recovery) *)
 Definition enabled_for (cfg : dcfg) (r : route) : bool :=
